@@ -29,6 +29,7 @@ def run(ctx, crate):
     D.rule_width_source(ctx, crate)
     D.rule_line_kinds(ctx, crate)
     D.rule_shift_full_frame(ctx, crate)
+    D.rule_counted_rows_adjacent(ctx, crate)
     # a finished bar updated under an exhausted limiter stores rows that were never painted; dropping it then makes the
     # next println erase that many log lines (seed C03c)
     D.rule_finished_draws_forced(ctx, crate)
@@ -234,6 +235,12 @@ def zlc_sites(crate, b):
         l = operand_local(c.args[0])
         if l is not None and any(ZLC in tp for tl, tp in refs.get(l, ())) and "&mut" in b.locals[l]["ty"]:
             adds.append((c.bb, c.line, b.slice_args(c, [1]), "add_assign"))
+    # `mem::take(&mut self.zombie_lines_count)` (or mem::replace(.., default)) reads the count and zeroes it in one step
+    for c in b.calls(r"std::mem::(take|replace)"):
+        l = operand_local(c.args[0]) if c.args else None
+        if l is not None and any(ZLC in tp for tl, tp in refs.get(l, ())):
+            if K.meth(c.path) == "take" or (len(c.args) > 1 and b.slice_args(c, [1]).has_call(r"std::default::Default::default")):
+                zeros.append((c.bb, {"line": c.line}))
     return adds, zeros, clears, keeps
 
 
@@ -297,14 +304,31 @@ def rule_row_transfer_pairing(ctx, crate, rule="R-ROW-TRANSFER-PAIRING"):
                       "zombie_lines_count grows by the number of rows LineAdjust::Keep actually released",
                       "zombie_lines_count grows by the requested row count although Keep saturates at the rows on screen: after clear() "
                       "a reaped bar counts rows that are not there, and the next println/clear erases that many log lines", cfg)
+        # (d) text written into the frame through a bar's println (orphan lines) lands *below* the kept zombie rows, so the
+        #     zombie rows stop being adjacent to the live region: that path too must hand the zombie rows over (Clear + zero) —
+        #     otherwise a later println/clear applies Clear(zombie_lines_count) to the rows of that text
+        feeds = [c for c in b.calls(r"std::vec::Vec::<T, A>::append", r"std::vec::Vec::<T, A>::extend.*") if b.slice_args(c).has_field("orphan_lines")]
+        if feeds and b.name == "multi::MultiState::draw":
+            ext = [i for i in range(1, b.arg_count + 1) if b.locals[i]["ty"].startswith("std::option::Option<") and "LineType" in b.locals[i]["ty"]]
+            if ext:
+                R_none = K.variant_reach(b, crate, "std::option::Option", "None", lambda pl: pl["l"] == ext[0] and not pl["p"])
+                zsites = [cbb for (cbb, cs, csl) in clears if csl.has_field(ZLC) or any(c.matches(r"std::mem::(take|replace)") for c in csl.calls)]
+                ok = any(z in R_none for z in zsites)
+                n += 1
+                ctx.check(ok, rule, "orphan-text-hands-over-zombies", b.name, feeds[0].loc(),
+                          "when only orphan lines (a bar's println) are printed, the zombie rows are handed over to the erase count as for MultiProgress::println",
+                          "a bar's println text is painted below kept zombie rows while they stay counted: the next println/clear applies Clear(zombie_lines_count) "
+                          "to the rows of that text (pb.println(\"x\") after a reaped bar, then mp.println(\"y\") erases x)", cfg)
         # (b) every Clear(zombie_lines_count) is followed on all paths by a zero store
         zero_bbs = [i for i, s in zeros]
         for (cbb, cs, csl) in clears:
-            if not csl.has_field(ZLC):
+            if not csl.has_field(ZLC) and not any(c.matches(r"std::mem::(take|replace)") and c.bb in zero_bbs for c in csl.calls):
                 continue
             n += 1
             ok = b.must_pass(b.succ(cbb) if cbb not in zero_bbs else [], zero_bbs) if zero_bbs else False
             ok = ok or (cbb in zero_bbs)
+            # the operand was obtained by mem::take of the counter: taken (and zeroed) before the Clear is built
+            ok = ok or any(c.matches(r"std::mem::(take|replace)") and c.bb in zero_bbs for c in csl.calls)
             ctx.check(ok, rule, "clear->zero", b.name, "%s:%d" % (b.file, cs.get("line", 0)),
                       "after Clear(zombie_lines_count) the zombie count is reset on every path",
                       "zombie rows handed to the erase count stay counted as zombie rows (erased twice)", cfg)
